@@ -431,6 +431,42 @@ def plant_corners(spec, rng):
     uj0 = out["patterns"][pats[0]]["usage_journey"]
     if rng.random() < 0.6 and len(out["journeys"][uj0]["uj_steps"]) < 5:
         out["journeys"][uj0]["uj_steps"] = out["journeys"][uj0]["uj_steps"] + [rng.choice(out["journeys"][uj0]["uj_steps"])]
+    # a usage pattern that is not part of the system (yet): its own journey, steps, jobs and network, the servers of the system
+    if rng.random() < 0.4:
+        p_src = pats[0]
+        tag = "_out"
+        pn_new = f"p{len(out['patterns'])}{tag}"
+        src = out["patterns"][p_src]
+        uj_new = src["usage_journey"] + tag
+        steps_new = []
+        for s_ in out["journeys"][src["usage_journey"]]["uj_steps"]:
+            sn_new = s_ + tag
+            if sn_new not in out["steps"]:
+                jobs_new = []
+                for j_ in out["steps"][s_]["jobs"]:
+                    jn_new = j_ + tag
+                    if jn_new not in out["jobs"]:
+                        out["jobs"][jn_new] = copy.deepcopy(out["jobs"][j_])
+                    jobs_new.append(jn_new)
+                out["steps"][sn_new] = dict(copy.deepcopy(out["steps"][s_]), jobs=jobs_new)
+            steps_new.append(sn_new)
+        out["journeys"][uj_new] = {"uj_steps": steps_new}
+        net_new = src["network"] + tag
+        out["networks"][net_new] = copy.deepcopy(out["networks"][src["network"]])
+        # … its own devices and country too: an edit of an object it shared with the system would compute it as a side
+        # effect, and it would then load the shared servers although it is not part of the system (finding D27)
+        devs_new = []
+        for d_ in src["devices"]:
+            if d_ + tag not in out["devices"]:
+                out["devices"][d_ + tag] = copy.deepcopy(out["devices"][d_])
+            devs_new.append(d_ + tag)
+        co_new = src["country"] + tag
+        out["countries"][co_new] = copy.deepcopy(out["countries"][src["country"]])
+        out["patterns"][pn_new] = dict(copy.deepcopy(src), usage_journey=uj_new, network=net_new, devices=devs_new, country=co_new)
+    # a storage that no server uses (yet)
+    if rng.random() < 0.5:
+        st0_ = next(iter(out["storages"]))
+        out["storages"][f"st{len(out['storages'])}_free"] = dict(copy.deepcopy(out["storages"][st0_]), fixed_nb_of_instances=None)
     # a job on a server (and storage) that the system does not use yet, and a step without jobs to receive it
     if rng.random() < 0.5:
         sv0 = next(iter(out["servers"]))
